@@ -4,6 +4,9 @@
 #include <cstdio>
 #include <system_error>
 #include <utility>
+#ifdef YACLIB_VERIF
+#  include <yaclib/fault/verif_hook.hpp>
+#endif
 
 namespace yaclib::detail::fiber {
 
@@ -32,6 +35,11 @@ void Thread::join() {
     _impl->SetJoiningFiber(fault::Scheduler::Current());
     fault::Scheduler::Suspend();
   }
+#ifdef YACLIB_VERIF
+  if (::yaclib::verif::gHooks != nullptr && ::yaclib::verif::gHooks->on_fiber != nullptr) {
+    ::yaclib::verif::gHooks->on_fiber(::yaclib::verif::kJoin, fault::Scheduler::GetId(), _impl->GetId(), nullptr, 0);
+  }
+#endif
   AfterJoinOrDetach();
 }
 
